@@ -66,6 +66,35 @@ def fullParseRLine (toks : List String) : String :=
     | .ok (ts, refs, dups) => "ok " ++ " ".intercalate (encToks ts) ++ " #refs " ++ encRefs refs ++ " #dups " ++ encRefs dups
   | _ => "bad-request"
 
+/-- `fullparset <blockbits><reference><inline_definitions><table> …` — the arguments of `fullparser` with one more block bit: all eleven
+    block rules (`fullParseT`) -/
+def fullParseTLine (toks : List String) : String :=
+  match toks with
+  | [bits, mn, rs, fj, inl, tj, ents, refm, ntxt, hasRefs, storeLabels, refHref, refTitle, normRef, src] =>
+    let b := bits.toList.map (· == '1')
+    let tc : TCfg := { code := b.getD 0 false, fence := b.getD 1 false, hr := b.getD 2 false, heading := b.getD 3 false,
+                       htmlBlock := b.getD 4 false, lheading := b.getD 5 false, html := b.getD 6 false,
+                       reference := b.getD 7 false, inlineDefs := b.getD 8 false, table := b.getD 9 false }
+    let ext := mkExt tc.html (decPairs ents) (decPairs refm) (decPairs ntxt)
+    let hrefs := decPairs refHref
+    let titles := decPairs refTitle
+    let nrefs := decPairs normRef
+    let lx : LExt := { hasRefs := decBool hasRefs, storeLabels := decBool storeLabels
+                       normRef := fun l => (lookupC nrefs l).getD missMark
+                       refs := fun l => match lookupC hrefs l with
+                         | some h => some (h, (lookupC titles l).getD [])
+                         | none => none }
+    let has := fun (c : Char) => rs.toList.contains c
+    let ic : ICfg := { text := has 't', newline := has 'n', escape := has 'e', backticks := has 'b', strike := has 's', emphasis := has 'm',
+                       link := has 'l', image := has 'i', autolink := has 'a', htmlInline := has 'h', entity := has 'y',
+                       fragJoin := decBool fj, inlineOn := decBool inl, textJoinOn := decBool tj }
+    let m := mn.toInt!
+    let cs := decChars src
+    match fullParseT drvCls ext lx tc ic Gen.pyWhitespace m ((m.toNat + 2) * (cs.length / 4 + 2)) cs with
+    | .error e => "e:" ++ e.tag
+    | .ok (ts, refs, dups) => "ok " ++ " ".intercalate (encToks ts) ++ " #refs " ++ encRefs refs ++ " #dups " ++ encRefs dups
+  | _ => "bad-request"
+
 /-- the fence renderer's language name: first word of `unescapeAll(info).strip()` -/
 def fenceLangOf (ext : IExt) (ws : List Nat) (t : Tok) : Option (List Char) :=
   let i := pyStrip ws (unescapeAllX ext t.info.toList)
